@@ -175,6 +175,7 @@ class EngineWorld:
         self.extra_tags = extra_tags
         self.extra_cmds = extra_cmds
         self.totalizer = totalizer
+        self._fs = fs
         try:
             self._build(recovery, archiver, data_log_interval)
         except BaseException:
@@ -205,6 +206,18 @@ class EngineWorld:
         self.engine = Engine(self.uod, timing, enable_archiver=archiver)
         self.uod.validate_configuration()
         self.uod.build_commands()
+        if getattr(self, "_fs", None) is not None:
+            # C39: record what every tag's archive() returns (the "archived values" of the statement)
+            fs = self._fs
+
+            def spy(tag, orig):
+                def archive():
+                    v = orig()
+                    fs.archived_now.append((tag.name, v))
+                    return v
+                return archive
+            for tag in self.engine.tags:
+                tag.archive = spy(tag, tag.archive)
         self.recovery = None
         if recovery:
             conf = ErrorRecoveryConfig()
